@@ -13,7 +13,7 @@ from .. import core, corpus, sergen, tlc, tok
 
 DEFECTS = ["ser-cdata-bare-name", "ser-noscript-raw", "ser-plaintext-escaped", "ser-cr-raw", "ser-pre-leading-lf",
            "ser-attr-prefix-dropped", "ser-unquoted-solidus", "ser-doctype-publicid-quote", "ser-doctype-name-none",
-           "ser-script-escape-unchecked", "ser-rcdata-child-unchecked"]
+           "ser-script-escape-unchecked", "ser-rcdata-child-unchecked", "ser-rawtext-charref", "ser-charref-remapped"]
 ASSUMED = ["the reader has scripting disabled, as html5lib's own parser (noscript content is read as data)",
            "escape_rcdata=True declares a reader that treats style/script/xmp/iframe/noembed/noframes/noscript as "
            "ordinary escapable elements; the judge then reads them in the data state",
@@ -21,7 +21,10 @@ ASSUMED = ["the reader has scripting disabled, as html5lib's own parser (noscrip
            "None and the empty string are identified for doctype name / public / system identifier",
            "tag and attribute names are compared ASCII-lower-cased (SVG/MathML case adjustments are the reader's); the "
            "self-closing flag is not compared",
-           "output without an encoding (encoded output and character references for unencodable characters: C15)"]
+           "encoded output: the reader decodes the bytes with the writer's own codec (writer/reader codec mismatch, BOMs and "
+           "the meta declaration are C15's); inject_meta_charset is off; the set of characters a codec cannot encode is a "
+           "fact supplied by the harness (o.pf), ASCII-compatible stateless codecs only"]
+ENCODINGS = ["ascii", "koi8-r", "shift_jis", "cp1251", "iso-8859-2", "ascii"]
 
 ERR_CODES = {
     "System identifier contains both single and double quote characters": "sysid-both-quotes",
@@ -42,12 +45,38 @@ def err_code(msg):
 def kwargs(o):
     kw = dict(quote_attr_values=o["qav"], escape_lt_in_attrs=o["ltattr"], escape_rcdata=o["escrc"],
               minimize_boolean_attributes=o["minbool"], use_trailing_solidus=o["solidus"],
-              space_before_trailing_solidus=o["spacesol"], resolve_entities=o["resolve"], omit_optional_tags=False)
+              space_before_trailing_solidus=o["spacesol"], resolve_entities=o["resolve"], omit_optional_tags=False,
+              inject_meta_charset=False)
     if o["qc"] == "dq":
         kw["quote_char"] = '"'
     elif o["qc"] == "sq":
         kw["quote_char"] = "'"
     return kw
+
+
+def enc_of(o):
+    """the output encoding of a run: named in the trace, or ascii for model-exported behaviours that list unencodable code points"""
+    return o.get("enc") or ("ascii" if o.get("pf") else None)
+
+
+def unencodable(stream, enc):
+    """code points of the stream the Python codec `enc` cannot encode (a fact about the codec, not about html5lib)"""
+    chars = set()
+    for t in stream:
+        for v in (t.get("name"), t.get("data") if isinstance(t.get("data"), str) else None, t.get("publicId"), t.get("systemId")):
+            if isinstance(v, str):
+                chars.update(v)
+        if isinstance(t.get("data"), dict):
+            for (_, k), v in t["data"].items():
+                chars.update(k)
+                chars.update(v)
+    out = []
+    for ch in sorted(chars):
+        try:
+            ch.encode(enc)
+        except UnicodeEncodeError:
+            out.append(ord(ch))
+    return out
 
 
 _POOL = {}
@@ -57,15 +86,17 @@ def real_run(tokens, o):
     """(output code points, error codes, strict cut, error codes of the strict run) of the real serializer on a stream"""
     from html5lib.serializer import HTMLSerializer, SerializeError
     kw = kwargs(o)
+    enc = enc_of(o)
     # the non-strict run goes through the serializer OBJECT that performed the previous strict run with the same options
     # (possibly aborted in the middle of a raw-text element): the property is about every HTMLSerializer, used or not
-    key = tuple(sorted(kw.items()))
+    key = tuple(sorted(kw.items())) + (enc,)
     s = _POOL.pop(key, None)
     if s is None:
         s = HTMLSerializer(**kw)
     s.strict = False
     try:
-        out = core.cps(s.render(iter(tokens)))
+        out = s.render(iter(tokens), enc) if enc else s.render(iter(tokens))
+        out = core.cps(out.decode(enc) if enc else out)
     except Exception as e:                                        # the machine has no such behaviour: compared as a marker
         out = [-2] + core.cps(type(e).__name__)
     errs = [err_code(m) for m in s.errors]
@@ -73,8 +104,8 @@ def real_run(tokens, o):
     s2.strict = True
     n, sn = 0, -1
     try:
-        for chunk in s2.serialize(iter(tokens)):
-            n += len(chunk)
+        for chunk in (s2.serialize(iter(tokens), enc) if enc else s2.serialize(iter(tokens))):
+            n += len(chunk.decode(enc) if enc else chunk)
     except SerializeError:
         sn = n
     except Exception:
@@ -86,11 +117,11 @@ def real_run(tokens, o):
 def rand_opts(rng):
     return {"qav": rng.choice(["legacy", "spec", "always"]), "qc": rng.choice(["best", "dq", "sq"]),
             "ltattr": rng.random() < 0.5, "escrc": rng.random() < 0.3, "minbool": rng.random() < 0.6,
-            "solidus": rng.random() < 0.5, "spacesol": rng.random() < 0.5, "resolve": rng.random() < 0.5}
+            "solidus": rng.random() < 0.5, "spacesol": rng.random() < 0.5, "resolve": rng.random() < 0.5, "pf": [], "enc": ""}
 
 
 DEFAULT_OPTS = {"qav": "legacy", "qc": "best", "ltattr": False, "escrc": False, "minbool": True, "solidus": False,
-                "spacesol": True, "resolve": True}
+                "spacesol": True, "resolve": True, "pf": [], "enc": ""}
 
 
 def cfg(mode, size, export, checkprop, defects):
@@ -121,6 +152,8 @@ WITNESS = {
     "ser-doctype-name-none": ("<!DOCTYPE>", "dom", {}),
     "ser-script-escape-unchecked": ("<script><!--<script>", "etree", {}),
     "ser-rcdata-child-unchecked": ("<p><b></p><textarea>x</textarea>", "etree", {}),
+    "ser-rawtext-charref": ("<style>\u00e9</style>", "etree", {"enc": "ascii"}),
+    "ser-charref-remapped": ("a\x80b", "etree", {"enc": "ascii"}),
 }
 PIECES = ["<style>", "</style>", "<script>", "</script>", "<xmp>", "</xmp>", "<iframe>", "</iframe>", "<noscript>",
           "</noscript>", "<noembed>", "</noembed>", "<noframes>", "</noframes>", "<title>", "</title>", "<textarea>",
@@ -150,7 +183,12 @@ PIECES = ["<style>", "</style>", "<script>", "</script>", "<xmp>", "</xmp>", "<i
           "<pre>\n\n", "<textarea>\n\nx", "<listing>\n\n", "<pre>&#10;", "<body><noscript>&lt;b&gt;", "<noscript><!--c-->",
           "<svg><style>a&gt;b", "<xmp>&lt;", "<title>&amp;lt;", "<p><b></p><textarea>", "<b><plaintext>",
           "<body><noscript><style>a</style>&lt;i&gt;", "<svg><style><script>x</script>&lt;b&gt;</style>",
-          "<noscript><iframe></iframe>&amp;amp;"]
+          "<noscript><iframe></iframe>&amp;amp;",
+          # characters an output encoding may lack: upper-case Latin-1 (legacy names without ';'), C1, Cyrillic, kana, astral
+          "\u00c9", "\u00c9cole", "\u00d6=1", "\u00de;", "\u00c5", "<a title=\u00c9COLE>", "<a title='\u00d6=1' alt=\u00de1>",
+          "<a b=\u00c6x c='\u00d1;'>", "&THORN;x", "&Eacute;a", "\x80", "\x9f", "<a b=\x85x>", "<\u00e9>", "<!--\u00e9-->",
+          "<a \u00e9=1>", "\u042f", "\u30a2", "\u4e00", "<title>\u00c9a</title>", "<textarea>\u00d8", "<style>\u00c9</style>",
+          "<a href='?x=\u00c91'>", "<!DOCTYPE \u00e9>", "\ufffe", "\u00a0", "\u0100"]
 
 
 def c08_doc(rng):
@@ -188,6 +226,8 @@ def sources(ctx, n):
             d = corpus.mutate(ctx.rng, c08_doc(ctx.rng))
         i += 1
         o = rand_opts(ctx.rng) if i % 4 else dict(DEFAULT_OPTS)
+        if i % 3 == 0:
+            o["enc"] = ENCODINGS[(i // 3) % len(ENCODINGS)]
         docs.append((d, "dom" if i % 2 else "etree", i % 5 == 0, o))
     return docs
 
@@ -204,6 +244,8 @@ def _record(item):
     if any(t["t"] not in ("StartTag", "EmptyTag", "EndTag", "Characters", "SpaceCharacters", "Comment", "Doctype",
                           "SerializerError") for t in toks):
         return None
+    if o.get("enc"):
+        o = dict(o, pf=unencodable(stream, o["enc"]))
     out, errs, sn, se = real_run(stream, o)
     return {"toks": toks, "o": o, "out": out, "errs": errs, "sn": sn, "se": se}
 
@@ -215,8 +257,8 @@ def trace_consts(listed):
 def run(ctx):
     sergen.main()
     listed = [d for d in DEFECTS if d in ctx.open_keys]
-    sizes = ({"text": 1, "attr": 1, "misc": 2, "cross": 1, "table": 1} if ctx.quick
-             else {"text": 2, "attr": 2, "misc": 3, "cross": 1, "table": 1})
+    sizes = ({"text": 1, "attr": 1, "misc": 2, "cross": 1, "table": 1, "enc": 1} if ctx.quick
+             else {"text": 2, "attr": 2, "misc": 3, "cross": 1, "table": 1, "enc": 2})
     ctx.assumptions = list(ASSUMED)
     ctx.constants = {
         "MC modes": {"text": "21 lexical contexts (incl. nested raw-text elements) x text (all strings <= %d over the danger alphabet < > & \" ' ` = / - ! space "
@@ -228,10 +270,15 @@ def run(ctx):
                      "cross": "20 mixed streams x all 576 option vectors",
                      "table": "22 elements x 25 attribute names (boolean-attribute table and neighbours) x minimisation; 26 names x "
                               "{html, svg} (void table and neighbours) x solidus options; 16 names x 3 namespaces (raw-text table "
-                              "and neighbours) x escape_rcdata"},
+                              "and neighbours) x escape_rcdata",
+                     "enc": "every code point of the encode-entity table (1414) + 40 numeric probes (all C1, surrogates, CJK, astral, "
+                            "noncharacters) as the character the output encoding lacks x follower {letter, digit, =, ;, space, end} x "
+                            "{attribute value quoted/unquoted, text, RCDATA, raw text, comment, attribute name} x %d option "
+                            "vector(s)" % (1 if ctx.quick else 3)},
         "options": "quote_attr_values x quote_char{default,\",'} x escape_lt_in_attrs x escape_rcdata x "
                    "minimize_boolean_attributes x use_trailing_solidus x space_before_trailing_solidus x resolve_entities; "
-                   "omit_optional_tags/strip_whitespace/sanitize/alphabetical_attributes off, no encoding",
+                   "omit_optional_tags/strip_whitespace/sanitize/alphabetical_attributes/inject_meta_charset off; output "
+                   "encoding: none, or ascii / koi8-r / shift_jis / cp1251 / iso-8859-2 (one third of the traces; ascii in MC)",
         "KnownDefects(code-faithful)": listed}
     ctx.rule = ("MC: every stream of the four modes (every prefix a state); theorem Faithful = errors reported or Retok(output) "
                 "= stream on KnownDefects = {}; code-faithful configuration exported and replayed (output, .errors, strict "
@@ -239,7 +286,7 @@ def run(ctx):
                 "under random option vectors on repo test inputs, context-targeted and soup inputs; TLC re-derives the output "
                 "and judges the actual output. non-trivial = stream whose output needed escaping/quoting decisions, i.e. "
                 "differs from the naive concatenation, or reported an error")
-    modes = ["text", "attr", "misc", "cross", "table"]
+    modes = ["text", "attr", "misc", "cross", "table", "enc"]
     # 1. intended design: the C08 theorem
     for m in modes:
         r = ctx.tlc("MC_Serializer", cfg(m, sizes[m], False, True, []), "mc-intended-" + m, keep_records=False)
